@@ -24,7 +24,12 @@ var hostile = []string{
 	"a/../../x", "a/../../outside.txt", "..\\x", "\\", "a\x00b", "\x00", "....", "../", "..//", "./../outside.txt", "d/../../../outside.txt",
 	"../../outside.txt", "../../../outside.txt", "../export", "../export/f", "export-evil", strings.Repeat("n", 300), strings.Repeat("../", 40) + "etc/passwd",
 }
-var ordinary = []string{"a", "d", "x", "y", "f", "e", "new", "n2"}
+var ordinary = []string{"a", "d", "x", "y", "f", "e", "new", "n2", "k"}
+
+// names that move a renamed object upwards but (from deep enough) not out of the export
+var upNames = []string{"../k2", "../../k2", "../d2", "../../d2", "../../../k2", "../k2/../../z"}
+
+var permHi = []uint32{0x02000000 /*DMSYMLINK*/, 0x00200000 /*DMNAMEDPIPE*/, 0x00800000 /*DMDEVICE*/, 0x00100000 /*DMSOCKET*/, 0x40000000, 0x20000000, 0x04000000, 0x08000000 /*DMAUTH*/, 0x10000000 /*DMMOUNT*/}
 
 func genName(t *rapid.T) harn.B {
 	if rapid.IntRange(0, 2).Draw(t, "hostile") > 0 {
@@ -34,11 +39,11 @@ func genName(t *rapid.T) harn.B {
 }
 
 func genConfOp(t *rapid.T) Op {
-	op := Op{Kind: rapid.SampledFrom([]string{"walk", "walk", "walk", "walk", "create", "create", "create", "rename", "rename", "rename", "open", "read", "write", "remove", "remove", "clunk", "fstat", "list", "chmod", "truncate", "attach"}).Draw(t, "kind")}
-	op.Fid = uint32(rapid.IntRange(0, 5).Draw(t, "fid"))
+	op := Op{Kind: rapid.SampledFrom([]string{"walk", "walk", "walk", "walk", "create", "create", "create", "rename", "rename", "rename", "open", "read", "write", "remove", "remove", "clunk", "fstat", "list", "chmod", "truncate", "attach", "touchroot"}).Draw(t, "kind")}
+	op.Fid = uint32(rapid.IntRange(0, 6).Draw(t, "fid"))
 	switch op.Kind {
 	case "walk":
-		op.Newfid = uint32(rapid.IntRange(1, 5).Draw(t, "newfid"))
+		op.Newfid = uint32(rapid.IntRange(1, 6).Draw(t, "newfid"))
 		if rapid.IntRange(0, 4).Draw(t, "inplace") == 0 {
 			op.Newfid = op.Fid
 		}
@@ -62,8 +67,16 @@ func genConfOp(t *rapid.T) Op {
 		op.Dir = rapid.IntRange(0, 2).Draw(t, "dir") == 0
 		op.Perm = rapid.SampledFrom([]uint32{0644, 0755, 0600}).Draw(t, "perm")
 		op.Mode = rapid.SampledFrom([]uint8{0, 1, 2, 0x12}).Draw(t, "mode")
+		if rapid.IntRange(0, 3).Draw(t, "permhi") == 0 {
+			op.PermHi = rapid.SampledFrom(permHi).Draw(t, "permhibits")
+		}
+	case "touchroot":
+		op.Count = rapid.IntRange(0, 50).Draw(t, "secs")
 	case "rename":
 		op.Name = genName(t)
+		if rapid.IntRange(0, 3).Draw(t, "up") == 0 {
+			op.Name = harn.B(rapid.SampledFrom(upNames).Draw(t, "upname"))
+		}
 	case "open":
 		op.Mode = rapid.SampledFrom([]uint8{0, 1, 2, 0x11}).Draw(t, "mode")
 	case "read":
@@ -96,6 +109,7 @@ func GenConf(t *rapid.T) ConfCase {
 		{Kind: "walk", Fid: 0, Newfid: 3, Names: B("f")},
 		{Kind: "walk", Fid: 0, Newfid: 4, Names: B("a", "d", "y")},
 		{Kind: "walk", Fid: 0, Newfid: 5},
+		{Kind: "walk", Fid: 0, Newfid: 6, Names: B("a", "d", "k")},
 	}
 	c.Empty = rapid.IntRange(0, 4).Draw(t, "empty") == 0
 	if c.Empty {
@@ -106,7 +120,39 @@ func GenConf(t *rapid.T) ConfCase {
 		max = 60
 	}
 	minLen := rapid.IntRange(1, max/2).Draw(t, "minlen")
-	c.Ops = append(c.Ops, rapid.SliceOfN(rapid.Custom(genConfOp), minLen, max).Draw(t, "ops")...)
+	ops := rapid.SliceOfN(rapid.Custom(genConfOp), minLen, max).Draw(t, "ops")
+	for i, op := range ops {
+		c.Ops = append(c.Ops, op)
+		switch {
+		case op.Kind == "rename" && rapid.Bool().Draw(t, fmt.Sprintf("follow%d", i)):
+			// right after a rename: climb from the renamed fid, towards something outside
+			w := Op{Kind: "walk", Fid: op.Fid, Newfid: uint32(rapid.IntRange(1, 6).Draw(t, "fnew"))}
+			for k := rapid.IntRange(1, 4).Draw(t, "fdd"); k > 0; k-- {
+				w.Names = append(w.Names, harn.B(".."))
+			}
+			w.Names = append(w.Names, harn.B(rapid.SampledFrom([]string{"outside.txt", "export-evil", "exportx", "other"}).Draw(t, "ftarget")))
+			c.Ops = append(c.Ops, w)
+			if rapid.Bool().Draw(t, "fuse") {
+				c.Ops = append(c.Ops, Op{Kind: rapid.SampledFrom([]string{"open", "remove", "fstat", "list"}).Draw(t, "fusekind"), Fid: w.Newfid})
+			}
+		case op.Kind == "touchroot" || (c.Empty && op.Kind == "remove" && rapid.Bool().Draw(t, fmt.Sprintf("rootrm%d", i))):
+			// a root fid obtained afresh (clone, ".." from below, or a new attach), then an attempt to remove it
+			nf := uint32(rapid.IntRange(1, 6).Draw(t, "rnew"))
+			switch rapid.IntRange(0, 2).Draw(t, "rhow") {
+			case 0:
+				c.Ops = append(c.Ops, Op{Kind: "clunk", Fid: nf}, Op{Kind: "walk", Fid: 0, Newfid: nf})
+			case 1:
+				c.Ops = append(c.Ops, Op{Kind: "clunk", Fid: nf}, Op{Kind: "attach", Fid: nf})
+			default:
+				c.Ops = append(c.Ops, Op{Kind: "walk", Fid: op.Fid, Newfid: nf, Names: B("..", "..", "..", "..")[:rapid.IntRange(1, 4).Draw(t, "rdd")]})
+			}
+			if rapid.IntRange(0, 2).Draw(t, "rdo") > 0 {
+				c.Ops = append(c.Ops, Op{Kind: "remove", Fid: nf})
+			} else {
+				c.Ops = append(c.Ops, Op{Kind: "rename", Fid: nf, Name: harn.B(rapid.SampledFrom([]string{"moved", "../moved", "../export-evil/sub/moved"}).Draw(t, "rname"))})
+			}
+		}
+	}
 	return c
 }
 
